@@ -175,4 +175,26 @@ func init() {
 			"proved (unbounded, all input strings): every index, slice, nil-dereference and type-assertion obligation of ParseSimple, Parse, setValue, FormatSimple and FormatURI; ParseURI except the obligations that need facts about net/url results (left unclaimed)",
 		},
 	}
+	properties["C01"] = &Property{
+		ID:    "C01",
+		Title: "Outgoing messages are well-formed TDS packet sequences",
+		Pkgs:  []string{"./tds"},
+		Funcs: []string{
+			`^\(\*tds\.Channel\)\.(sendPacket|sendPackets|QueuePackage|SendRemainingPackets|SendPackage|Reset)$`,
+			`^\(tds\.Packet\)\.(Bytes|WriteTo)$`, `^\(tds\.PacketHeader\)\.(Read|WriteTo)$`, `^tds\.(NewPacket|NewPacketHeader)$`,
+			`^\(tds\.\w+Package\)\.WriteTo$`, `^\(\*tds\.(DynamicPackage|LanguagePackage|RowFmtPackage)\)\.WriteTo$`,
+			`^\(tds\.(fieldFmt\w+|fieldData\w*|EnvChangePackageField)\)\.(WriteTo|writeTo\w*)$`,
+		},
+		Assumptions: []string{
+			"io.Writer contract of the transport (/verif/specs/io.spec): a nil error means the whole buffer was taken, bytes are appended to the peer's stream",
+			"Conn [wired] / [packet-size] invariants are established by NewConn and handleSpecialPackage, which are outside the verified set (network, TLS, goroutines); the packet size does not change while a message is queued, so packets created by the queue have the body size sendPacket compares against (not verified)",
+			"one goroutine sends on a channel at a time (the RWMutex is taken in read mode by all senders); goroutines are not modelled",
+			"the PacketQueue write methods (WriteBytes and the typed writers) are verified under C15 and used here through their contracts",
+			"client-built packages handed to QueuePackage satisfy their structural invariants (non-nil fields / formats); the corresponding nil obligations in ParamsPackage/ParamFmtPackage/LoginAckPackage/TokenlessPackage.WriteTo and the LastPkg preconditions are unclaimed",
+		},
+		Notes: []string{
+			"proved (unbounded): every packet written by sendPacket carries the channel's message type and id, a header length equal to 8 + len(body), the end-of-message flag exactly when the body is shorter than the current body size, and reaches the transport as header (big-endian length) followed by the body with earlier bytes of the wire untouched; a successful flush (sendPackets(false), SendRemainingPackets, SendPackage) leaves no message open on the wire (the last packet written carried the end-of-message flag), for every total length including exact multiples of the body size; every Package/FieldFmt/FieldData writer only appends to the channel's output stream",
+			"not mechanised: the byte-level equality between the concatenated packet bodies on the wire and the queue's output stream across several sendPackets calls, and the queue invariant at the deferred DiscardUntilCurrentPosition call in sendPackets (unclaimed obligations)",
+		},
+	}
 }
